@@ -20,7 +20,7 @@ from . import transports as T
 from .engine import Violation, gen_costs, collect_info
 from .harness import EOF, TIMEOUT
 from .kernel import OpenFile, OPOST
-from .world import SimHang, HarnessError
+from .world import SimHang, HarnessError, SimInterrupt
 
 TERM_SIGNALS = [1, 2, 3, 4, 5, 6, 7, 8, 9, 10, 11, 12, 13, 14, 15, 24, 25, 26, 27, 31]
 
@@ -92,6 +92,13 @@ def gen_ops(rng, tr, n):
 
 
 def generate(rng):
+    scn = _generate(rng)
+    if scn.get('transport') != 'popen' and rng.random() < 0.08:
+        scn['intr'] = sorted([rng.randint(1, 8), rng.choice([1, 50, 5000, 60000])] for _ in range(rng.randint(1, 2)))
+    return scn
+
+
+def _generate(rng):
     scn = {'family': 'lifecycle'}
     tr = rng.choice(['pty'] * 6 + ['fd', 'sock', 'sock', 'popen'])
     scn['transport'] = tr
@@ -361,6 +368,7 @@ def run(scn, prop=None):
             res = {'out': 'ret', 'ret': None}
             was_closed = child.closed
             touched_before = dict((fd, len(v)) for fd, v in k.touched.items())
+            w.intr_armed = (o != 'del')      # (an exception inside a finaliser is swallowed by the interpreter: not judged)
             try:
                 if o == 'isalive':
                     res['ret'] = child.isalive()
@@ -453,9 +461,17 @@ def run(scn, prop=None):
                 res = {'out': 'HANG', 'exc': _strip_tb(e)}
             except HarnessError:
                 raise
+            except SimInterrupt as e:
+                # abandoned from outside (Ctrl-C, a raising signal handler) while it waited; the application goes on.
+                # Nothing is claimed about what the abandoned operation achieved; every invariant about the object's
+                # claims (liveness, status, handles) holds as after any other operation.
+                res = {'out': 'INTR', 'exc': _strip_tb(e)}
+                w.probe('lifecycle_operation_interrupted_from_outside')
             except Exception as e:
                 res = {'out': 'EXC', 'exc': e, 'site': harness._tb_site(e)}
                 _strip_tb(e)
+            finally:
+                w.intr_armed = False
             plant_decoys()
             det = {'op': kx, 'opname': o, 'outcome': res['out'], 'ret': repr(res.get('ret'))[:40],
                    'exc': repr(res.get('exc'))[:160], 'ops': [x['op'] for x in scn['ops'][:kx + 1]]}
